@@ -1,8 +1,314 @@
+import RichModel.Model.Frames
+import RichModel.Model.FramesTree
+import RichModel.Model.FramesColumns
+import RichModel.Gen.CellWidths
 import RichModel.Drv.Proto
-/- Driver handlers for property C08 (stub: filled in when the model is built). -/
-namespace RichModel.Drv.C08
-open RichModel RichModel.Proto
+/-
+Driver handlers for property C08 (framing renderables).
 
-def handlers : List (String × (List String → String)) := []
+`frames_batch <env> <leaves> <q1> <q2> ...` answers `r1~r2~...`:
+  env    = `consoleWidth,ascii,legacy,safe,nocolor,colorsystem`
+  leaves = leaf oracles joined by `&`; a leaf is `measures@renders@index`:
+             measures = `min:max` for w = 0..Wtab joined by `,`
+             renders  = the distinct values of `list(console.render(child, width=w))`, joined by `/`;
+                        a render is segments joined by `|`; a segment is `<code points>;<control 0|1>`
+             index    = for w = 0..Wtab the number of its render, joined by `,`
+  query  = `R,<variant>,<max_width>,<expr>`  (render)  |  `M,<variant>,<max_width>,<expr>`  (Measurement.get)
+  expr   = prefix tokens joined by `;` (see `parseExpr`)
+  result = `ok:<code points of the concatenated non-control text>#<control segments>` | `m:<min>,<max>` |
+           `err:<PyErr>` | `unmodelled`
+A leaf looked up outside 0..Wtab yields a poison value; every query is evaluated under two different
+poisons and answers `unmodelled` when the two results differ (so an out-of-range lookup can never leak
+into a compared answer).
+-/
+namespace RichModel.Drv.C08
+open RichModel RichModel.Proto RichModel.Frames
+
+def cw : Char → Nat := charWidthT Gen.cellWidths
+
+abbrev Seg := Segment Nat
+abbrev Ch := Child Nat
+
+/-! ### decoding -/
+
+def decSeg (s : String) : Seg :=
+  match s.splitOn ";" with
+  | [t, c] => { text := decStr t, style := none, control := decBool c }
+  | _ => { text := [], style := none, control := false }
+
+def decRender (s : String) : List Seg := if s.isEmpty then [] else (s.splitOn "|").map decSeg
+
+def decMeasure (s : String) : Measurement :=
+  match s.splitOn ":" with
+  | [a, b] => ⟨decInt a, decInt b⟩
+  | _ => ⟨0, 0⟩
+
+/-- poison values for lookups outside the tabulated range -/
+def poisonSeg (k : Nat) : Seg := { text := [Char.ofNat (0x10FF00 + k)], style := none, control := false }
+def poisonMeasure (k : Nat) : Measurement := ⟨1000003 + k, 1000003 + k⟩
+
+def decLeaf (k : Nat) (s : String) : Ch :=
+  match s.splitOn "@" with
+  | [ms, rs, ix] =>
+    let measures := ((ms.splitOn ",").map decMeasure).toArray
+    let renders := ((rs.splitOn "/").map decRender).toArray
+    let index := ((ix.splitOn ",").map decNat).toArray
+    { measure := fun w => match measures[w]? with | some m => m | none => poisonMeasure k,
+      render := fun w => match index[w]? with
+        | some i => (match renders[i]? with | some r => r | none => [poisonSeg k])
+        | none => [poisonSeg k] }
+  | _ => { measure := fun _ => poisonMeasure k, render := fun _ => [poisonSeg k] }
+
+def decLeaves (k : Nat) (s : String) : Array Ch :=
+  if s.isEmpty then #[] else ((s.splitOn "&").map (decLeaf k)).toArray
+
+def decEnv (s : String) : Env :=
+  match s.splitOn "," with
+  | [w, a, l, sb, nc, cs] =>
+    { consoleWidth := decNat w, asciiOnly := decBool a, legacyWindows := decBool l, safeBox := decBool sb,
+      noColor := decBool nc, colorSystem := decNat cs }
+  | _ => { consoleWidth := 80 }
+
+def decOptInt (s : String) : Option Int := if s == "-" then none else s.toInt?
+def decOptBool (s : String) : Option Bool := if s == "-" then none else some (s == "1")
+def decAlign (s : String) : AlignM := if s == "l" then .left else if s == "r" then .right else .center
+
+/-! ### expressions -/
+
+mutual
+inductive Expr where
+  | leaf (i : Nat)
+  | pad (dims : List Nat) (expand : Bool) (e : Expr)
+  | panel (o : PanelOpts) (e : Expr)
+  | align (o : AlignOpts) (e : Expr)
+  | constrain (w : Option Int) (e : Expr)
+  | styled (e : Expr)
+  | rule (o : RuleOpts)
+  | bar (o : BarOpts)
+  | pbar (o : ProgressOpts)
+  | tree (t : TNode)
+inductive TNode where
+  | mk (label : Expr) (gs : GStyle) (expanded : Bool) (children : List TNode)
+end
+
+def takeNats : Nat → List String → Option (List Nat × List String)
+  | 0, ts => some ([], ts)
+  | n+1, t :: ts => (takeNats n ts).map (fun (l, r) => (decNat t :: l, r))
+  | _+1, [] => none
+
+mutual
+partial def parseExpr : List String → Option (Expr × List String)
+  | "L" :: i :: ts => some (.leaf (decNat i), ts)
+  | "TREE" :: ts => do
+    let (t, ts) ← parseNode ts
+    pure (.tree t, ts)
+  | "PAD" :: ex :: n :: ts => do
+    let (dims, ts) ← takeNats (decNat n) ts
+    let (e, ts) ← parseExpr ts
+    pure (.pad dims (decBool ex) e, ts)
+  | "PANEL" :: box :: title :: ta :: sb :: ex :: wd :: n :: ts => do
+    let (dims, ts) ← takeNats (decNat n) ts
+    let (e, ts) ← parseExpr ts
+    pure (.panel { box := decNat box, title := decStr title, titleAlign := decAlign ta, safeBox := decOptBool sb,
+                   expand := decBool ex, width := decOptInt wd, padding := dims } e, ts)
+  | "ALIGN" :: a :: p :: wd :: ts => do
+    let (e, ts) ← parseExpr ts
+    pure (.align { align := decAlign a, pad := decBool p, width := decOptInt wd } e, ts)
+  | "CONSTRAIN" :: wd :: ts => do
+    let (e, ts) ← parseExpr ts
+    pure (.constrain (decOptInt wd) e, ts)
+  | "STYLED" :: ts => do
+    let (e, ts) ← parseExpr ts
+    pure (.styled e, ts)
+  | "RULE" :: title :: chars :: e :: a :: ts =>
+    some (.rule { title := decStr title, characters := decStr chars, endS := decStr e, align := decAlign a }, ts)
+  | "BAR" :: sn :: sd :: bn :: bd :: en :: ed :: wd :: ts =>
+    some (.bar { size := ⟨decInt sn, decNat sd⟩, beginV := ⟨decInt bn, decNat bd⟩, endV := ⟨decInt en, decNat ed⟩,
+                 width := decOptInt wd }, ts)
+  | "PBAR" :: tn :: td :: cn :: cd :: wd :: pu :: tmn :: tmd :: ts =>
+    some (.pbar { total := ⟨decInt tn, decNat td⟩, completed := ⟨decInt cn, decNat cd⟩, width := decOptInt wd,
+                  pulse := decBool pu, time := ⟨decInt tmn, decNat tmd⟩ }, ts)
+  | _ => none
+partial def parseNode : List String → Option (TNode × List String)
+  | "N" :: b :: u :: ex :: k :: ts => do
+    let (label, ts) ← parseExpr ts
+    let (children, ts) ← parseNodes (decNat k) ts
+    pure (.mk label ⟨decOptBool b, decOptBool u⟩ (decBool ex) children, ts)
+  | _ => none
+partial def parseNodes : Nat → List String → Option (List TNode × List String)
+  | 0, ts => some ([], ts)
+  | n+1, ts => do
+    let (t, ts) ← parseNode ts
+    let (rest, ts) ← parseNodes n ts
+    pure (t :: rest, ts)
+end
+
+/-- result of evaluating a frame at one width -/
+inductive Res where
+  | ok (segs : List Seg)
+  | err (e : PyErr)
+  | unmodelled
+
+structure Ctx where
+  env : Env
+  v : Variant
+  leaves : Array Ch
+  poison : Nat
+
+-- nested position: static errors / unmodelled sub-frames make the whole query unmodelled
+mutual
+partial def toChild (c : Ctx) : Expr → Option Ch
+  | .leaf i => c.leaves[i]?
+  | .tree t => do
+    let root ← toTree c t
+    some (treeChild cw c.env root)
+  | .pad dims ex e => do
+    let ch ← toChild c e
+    match unpackPad dims with
+    | .ok p => some (paddingChild cw c.v p ex ch)
+    | .error _ => none
+  | .panel o e => do
+    let ch ← toChild c e
+    match unpackPad o.padding with
+    | .error _ => none
+    | .ok _ =>
+      if !(o.title.all simpleChar) then none else
+      if (o.width.getD 0) < 0 then none else
+      some (asChild
+        (fun w => match panelConsole cw c.env c.v o ch w with
+          | .ok (some s) => s
+          | _ => [poisonSeg c.poison])
+        (fun w => match panelRichMeasure cw o ch w with
+          | .ok m => m
+          | .error _ => poisonMeasure c.poison))
+  | .align o e => do
+    let ch ← toChild c e
+    some (alignChild cw c.env c.v o ch)
+  | .constrain w e => do
+    let ch ← toChild c e
+    some (constrainChild w ch)
+  | .styled e => do
+    let ch ← toChild c e
+    some (styledChild ch)
+  | .rule o =>
+    match ruleInit cw o with
+    | .error _ => none
+    | .ok o =>
+      if !(o.title.all simpleChar && o.characters.all simpleChar) then none else
+      some (asChild
+        (fun w => match ruleConsole cw c.env o w with
+          | some s => s
+          | none => [poisonSeg c.poison])
+        (fun w => ⟨0, w⟩))   -- Rule has no __rich_measure__: Measurement.get gives (0, max_width)
+  | .bar o =>
+    if o.size.den == 0 || o.beginV.den == 0 || o.endV.den == 0 || (o.width.getD 0) < 0 then none else
+    some (asChild (barConsole (barInit o)) (barRichMeasure o.width))
+  | .pbar o =>
+    if o.total.den == 0 || o.completed.den == 0 || o.time.den == 0 || (o.width.getD 0) < 0 then none else
+    some (asChild (progressConsole c.env o) (barRichMeasure o.width))
+partial def toTree (c : Ctx) : TNode → Option (TreeN Nat)
+  | .mk label gs ex children => do
+    let l ← toChild c label
+    let cs ← children.mapM (toTree c)
+    some (.node l gs ex cs)
+end
+
+/-- top level: `list(console.render(obj, options.update(width=w)))` -/
+def renderTop (c : Ctx) (e : Expr) (w : Int) : Res :=
+  match e with
+  | .panel o e' =>
+    match toChild c e' with
+    | none => .unmodelled
+    | some ch =>
+      if w < 1 then .ok [] else
+      if !(o.title.all simpleChar) || (o.width.getD 0) < 0 then .unmodelled else
+      match panelConsole cw c.env c.v o ch w with
+      | .error er => .err er
+      | .ok none => .unmodelled
+      | .ok (some s) => .ok s
+  | .rule o =>
+    match ruleInit cw o with
+    | .error er => .err er
+    | .ok o =>
+      if w < 1 then .ok [] else
+      if !(o.title.all simpleChar && o.characters.all simpleChar) then .unmodelled else
+      match ruleConsole cw c.env o w with
+      | none => .unmodelled
+      | some s => .ok s
+  | e =>
+    match toChild c e with
+    | none => .unmodelled
+    | some ch => .ok (ch.renderAt w)
+
+def measureTop (c : Ctx) (e : Expr) (w : Int) : Option Measurement :=
+  match e with
+  | .rule o =>
+    match ruleInit cw o with
+    | .error _ => none
+    | .ok _ => some (Measurement.getPost w none)
+  | e => (toChild c e).map (fun ch => ch.measureAt w)
+
+def errName : PyErr → String
+  | .valueError => "ValueError"
+  | .zeroDivision => "ZeroDivisionError"
+  | .indexError => "IndexError"
+
+def encRes : Res → String
+  | .unmodelled => "unmodelled"
+  | .err e => "err:" ++ errName e
+  | .ok segs =>
+    let text := (segs.filter (fun s => !s.control)).flatMap (·.text)
+    let ctl := (segs.filter (·.control)).map (fun s => encStr s.text)
+    "ok:" ++ encStr text ++ "#" ++ ",".intercalate ctl
+
+def answerQuery (env : Env) (l1 l2 : Array Ch) (q : String) : String :=
+  match q.splitOn "," with
+  | [kind, v, w, ex] =>
+    match parseExpr (ex.splitOn ";") with
+    | some (e, []) =>
+      let run (k : Nat) : String :=
+        let c : Ctx := { env := env, v := { zeroWidthChild := decBool v }, leaves := (if k == 1 then l1 else l2), poison := k }
+        if kind == "R" then encRes (renderTop c e (decInt w))
+        else match measureTop c e (decInt w) with
+          | some m => s!"m:{m.minimum},{m.maximum}"
+          | none => "unmodelled"
+      let a := run 1
+      let b := run 2
+      if a == b then a else "unmodelled"
+    | _ => "bad-expr"
+  | _ => "bad-query"
+
+def handlers : List (String × (List String → String)) := [
+  ("frames_batch", fun a => match a with
+    | env :: leaves :: qs =>
+      let l1 := decLeaves 1 leaves
+      let l2 := decLeaves 2 leaves
+      "~".intercalate (qs.map (answerQuery (decEnv env) l1 l2))
+    | _ => "bad-args"),
+  ("frames_unpack", fun a => match a with
+    | [n, body] =>
+      let dims := if decNat n == 0 then [] else (body.splitOn ",").map decNat
+      match unpackPad dims with
+      | .ok p => s!"{p.top},{p.right},{p.bottom},{p.left}"
+      | .error e => "err:" ++ errName e
+    | _ => "bad-args"),
+  -- frames_columns <padding n:a,b..> <width|-> <equal> <column_first> <right_to_left> <measured maxima, comma separated> <max_width>
+  ("frames_columns", fun a => match a with
+    | [pad, wd, eq, cf, rtl, ms, mw] =>
+      let dims := match pad.splitOn ":" with
+        | [n, body] => if decNat n == 0 then [] else (body.splitOn ",").map decNat
+        | _ => []
+      let measured := if ms.isEmpty then [] else (ms.splitOn ",").map decInt
+      let o : ColumnsOpts := { padding := dims, width := decOptInt wd, equal := decBool eq, columnFirst := decBool cf,
+                               rightToLeft := decBool rtl }
+      if (o.width.getD 0) < 0 || decInt mw < 1 then "unmodelled" else
+      match columnsLayout o measured (decInt mw) with
+      | .error e => "err:" ++ errName e
+      | .ok none => "none"
+      | .ok (some l) =>
+        toString l.columnCount ++ "|" ++ ";".intercalate (l.rows.map (fun r =>
+          ",".intercalate (r.map (fun x => match x with | some i => toString i | none => "-"))))
+    | _ => "bad-args")
+]
 
 end RichModel.Drv.C08
